@@ -1340,4 +1340,276 @@ theorem parseLoop_skipInv (wide : Bool) (wantType : Nat) (r : List Ch) (o o' : P
                 cases h
                 refine ⟨fun _ => by simp, fun hh => by simp at hh⟩
 
+/-! ### Splitting a generated entry into its fields -/
+
+/-- Characters that may appear inside a field of generated text. -/
+def CleanCh (c : Ch) : Prop := c ≠ 0 ∧ c ≠ 32 ∧ c ≠ 9 ∧ c ≠ 10 ∧ c ≠ 44 ∧ c ≠ 58 ∧ c ≠ 35
+
+def Clean (b : List Ch) : Prop := ∀ c ∈ b, CleanCh c
+
+theorem CleanCh.notWs {c : Ch} (h : CleanCh c) : isWs c = false := by
+  obtain ⟨_, h1, h2, h3, _⟩ := h
+  simp [isWs, h1, h2, h3]
+
+theorem skipWsN_clean (b tl : List Ch) (hb : Clean b) (htl : b = [] → ∀ c t, tl = c :: t → isWs c = false) :
+    skipWsN (b ++ tl) = b ++ tl := by
+  cases b with
+  | nil =>
+    cases tl with
+    | nil => rfl
+    | cons c t => simp [skipWsN, htl rfl c t rfl]
+  | cons c t => simp [skipWsN, (hb c (by simp)).notWs]
+
+theorem scanFieldN_clean (b : List Ch) (x : Ch) (rest : List Ch) (hb : Clean b)
+    (hx : isWs x = true ∨ x = 44 ∨ x = 58 ∨ x = 35) :
+    scanFieldN (b ++ x :: rest) = (b.length, x :: rest) := by
+  induction b with
+  | nil => simp [scanFieldN, hx]
+  | cons c t ih =>
+    have hc := hb c (by simp)
+    obtain ⟨_, h1, h2, h3, h4, h5, h6⟩ := hc
+    have := ih (fun d hd => hb d (by simp [hd]))
+    simp [scanFieldN, isWs, h1, h2, h3, h4, h5, h6, this]
+
+theorem scanFieldN_clean_end (b : List Ch) (hb : Clean b) : scanFieldN b = (b.length, []) := by
+  induction b with
+  | nil => simp [scanFieldN]
+  | cons c t ih =>
+    obtain ⟨_, h1, h2, h3, h4, h5, h6⟩ := hb c (by simp)
+    have := ih (fun d hd => hb d (by simp [hd]))
+    simp [scanFieldN, isWs, h1, h2, h3, h4, h5, h6, this]
+
+/-- `next_field` on a clean field followed by a separator. -/
+theorem nextFieldN_clean (b : List Ch) (x : Ch) (rest : List Ch) (hb : Clean b)
+    (hx : x = 58 ∨ x = 44 ∨ (x = 10 ∧ b ≠ [])) :
+    nextFieldN (b ++ x :: rest) = { field := ⟨b ++ x :: rest, b.length⟩, sep := x, rest := rest } := by
+  have hws : skipWsN (b ++ x :: rest) = b ++ x :: rest := by
+    apply skipWsN_clean b _ hb
+    intro he c t hct
+    simp only [List.cons.injEq] at hct
+    rcases hx with h | h | h
+    · rw [← hct.1, h]; decide
+    · rw [← hct.1, h]; decide
+    · exact (h.2 he).elim
+  have hsf : scanFieldN (b ++ x :: rest) = (b.length, x :: rest) := by
+    apply scanFieldN_clean b x rest hb
+    rcases hx with h | h | h
+    · exact Or.inr (Or.inr (Or.inl h))
+    · exact Or.inr (Or.inl h)
+    · left; rw [h.1]; decide
+  have hss : scanSepN (x :: rest) = x :: rest := by
+    rcases hx with h | h | h <;> simp [scanSepN, h]
+  have h35 : x ≠ 35 := by rcases hx with h | h | h <;> simp [h]
+  simp [nextFieldN, hws, hsf, hss, sepAt, h35]
+
+theorem nextFieldN_clean_end (b : List Ch) (hb : Clean b) :
+    nextFieldN b = { field := ⟨b, b.length⟩, sep := 0, rest := [] } := by
+  have hws : skipWsN b = b := by simpa using skipWsN_clean b [] hb (by simp)
+  simp [nextFieldN, hws, scanFieldN_clean_end b hb, scanSepN, sepAt]
+
+theorem skipWsW_clean (b tl : List Ch) (hb : Clean b) (hne : b ++ tl ≠ [])
+    (htl : b = [] → ∀ c t, tl = c :: t → isWs c = false) :
+    skipWsW (b ++ tl) = .ok (b ++ tl) := by
+  cases b with
+  | nil =>
+    cases tl with
+    | nil => exact (hne rfl).elim
+    | cons c t => simp [skipWsW, htl rfl c t rfl]
+  | cons c t => simp [skipWsW, (hb c (by simp)).notWs]
+
+theorem scanW_clean (b : List Ch) (x : Ch) (rest : List Ch) (hb : Clean b)
+    (hx : x = 0 ∨ x = 44 ∨ x = 58 ∨ x = 10 ∨ x = 35) :
+    scanW (b ++ x :: rest) = .ok (b, x :: rest) := by
+  induction b with
+  | nil => simp [scanW, hx]
+  | cons c t ih =>
+    obtain ⟨h0, h1, h2, h3, h4, h5, h6⟩ := hb c (by simp)
+    have := ih (fun d hd => hb d (by simp [hd]))
+    simp [scanW, h0, h3, h4, h5, h6, this]
+
+theorem trimEndW_clean (b : List Ch) (hb : Clean b) (hne : b ≠ []) : trimEndW b = .ok b.length := by
+  unfold trimEndW
+  have hlast := (hb _ (List.getLast_mem hne)).notWs
+  have hb' := List.dropLast_concat_getLast hne
+  have hrev : b.reverse = b.getLast hne :: b.dropLast.reverse := by
+    conv => lhs; rw [← hb']
+    simp
+  have hlen : (b.getLast hne :: b.dropLast.reverse).length = b.length := by
+    rw [← hrev]; simp
+  rw [hrev]
+  simp only [List.dropWhile_cons, hlast, Bool.false_eq_true, if_false]
+  rw [hlen]
+
+/-- `next_field_w` on a clean field followed by a separator or the terminator. -/
+theorem nextFieldW_clean (b : List Ch) (x : Ch) (rest : List Ch) (hb : Clean b)
+    (hx : x = 58 ∨ x = 44 ∨ (x = 10 ∧ b ≠ []) ∨ x = 0) :
+    nextFieldW (b ++ x :: rest) =
+      .ok { field := ⟨b ++ x :: rest, b.length⟩, sep := x, rest := if x ≠ 0 then rest else x :: rest } := by
+  have hws : skipWsW (b ++ x :: rest) = .ok (b ++ x :: rest) := by
+    apply skipWsW_clean b _ hb (by simp)
+    intro he c t hct
+    simp only [List.cons.injEq] at hct
+    rcases hx with h | h | h | h
+    · rw [← hct.1, h]; decide
+    · rw [← hct.1, h]; decide
+    · exact (h.2 he).elim
+    · rw [← hct.1, h]; decide
+  have hsc : scanW (b ++ x :: rest) = .ok (b, x :: rest) := by
+    apply scanW_clean b x rest hb
+    rcases hx with h | h | h | h
+    · exact Or.inr (Or.inr (Or.inl h))
+    · exact Or.inr (Or.inl h)
+    · exact Or.inr (Or.inr (Or.inr (Or.inl h.1)))
+    · exact Or.inl h
+  have h35 : x ≠ 35 := by rcases hx with h | h | h | h <;> simp [h]
+  have htrim : (if b = [] then .ok 0 else trimEndW b : Except Fault Nat) = .ok b.length := by
+    by_cases hbe : b = []
+    · simp [hbe]
+    · simp [hbe, trimEndW_clean b hb hbe]
+  unfold nextFieldW
+  simp only [hws, hsc, rd_cons, htrim, h35, if_false]
+  by_cases h0 : x = 0 <;> simp [h0]
+
+theorem nextField_clean (wide : Bool) (b : List Ch) (x : Ch) (rest : List Ch) (hb : Clean b)
+    (hx : x = 58 ∨ x = 44 ∨ (x = 10 ∧ b ≠ [])) :
+    nextField wide (b ++ x :: rest) =
+      .ok { field := ⟨b ++ x :: rest, b.length⟩, sep := x, rest := rest } := by
+  cases wide with
+  | false => simp [nextField, nextFieldN_clean b x rest hb hx]
+  | true =>
+    have hx0 : x ≠ 0 := by rcases hx with h | h | h <;> simp [h]
+    have := nextFieldW_clean b x rest hb (by
+      rcases hx with h | h | h
+      · exact Or.inl h
+      · exact Or.inr (Or.inl h)
+      · exact Or.inr (Or.inr (Or.inl h)))
+    simp [nextField, this, hx0]
+
+/-- The fields of an entry, joined by colons. -/
+def joinColon : List (List Ch) → List Ch
+  | [] => []
+  | [b] => b
+  | b :: b' :: t => b ++ 58 :: joinColon (b' :: t)
+
+/-- What follows an entry in generated text (`tl`) and where the parser stands after it
+(`rest`): an entry separator and more text, or the end of the text. -/
+inductive EntryEnd (wide : Bool) : List Ch → List Ch → Prop
+  | sep (x : Ch) (rest : List Ch) (hx : x = 44 ∨ x = 10) : EntryEnd wide (x :: rest) rest
+  | endN (h : wide = false) : EntryEnd wide [] []
+  | endW (h : wide = true) : EntryEnd wide [0] [0]
+
+theorem splitEntry_clean (wide : Bool) (bs : List (List Ch)) (tl rest : List Ch)
+    (hne : bs ≠ []) (hc : ∀ b ∈ bs, Clean b) (hlast : bs.getLast hne ≠ [])
+    (hend : EntryEnd wide tl rest) :
+    ∃ fs, splitEntry wide (joinColon bs ++ tl) = .ok (fs, rest) ∧ fs.map bodyOf = bs ∧
+      (∀ f ∈ fs, FieldOK wide f) ∧ (fs.headD ⟨[], 0⟩).s = joinColon bs ++ tl := by
+  induction bs with
+  | nil => exact (hne rfl).elim
+  | cons b t ih =>
+    cases t with
+    | nil =>
+      have hb : Clean b := hc b (by simp)
+      have hbne : b ≠ [] := by simpa using hlast
+      simp only [joinColon]
+      rw [splitEntry_eq]
+      cases hend with
+      | sep x rest hx =>
+        have hx' : x = 58 ∨ x = 44 ∨ (x = 10 ∧ b ≠ []) := by
+          rcases hx with h | h
+          · exact Or.inr (Or.inl h)
+          · exact Or.inr (Or.inr ⟨h, hbne⟩)
+        have hx58 : x ≠ 58 := by rcases hx with h | h <;> simp [h]
+        rw [nextField_clean wide b x rest hb hx']
+        simp only [hx58, if_false]
+        refine ⟨_, rfl, ?_, ?_, rfl⟩
+        · simp [bodyOf]
+        · intro f hf; simp at hf; subst hf
+          exact ⟨by simp, fun _ => by simp⟩
+      | endN hw =>
+        subst hw
+        simp only [List.append_nil, nextField, Bool.false_eq_true, if_false, nextFieldN_clean_end b hb]
+        refine ⟨_, rfl, ?_, ?_, rfl⟩
+        · simp [bodyOf]
+        · intro f hf; simp at hf; subst hf
+          exact ⟨by simp, fun h => by cases h⟩
+      | endW hw =>
+        subst hw
+        have := nextFieldW_clean b 0 [] hb (Or.inr (Or.inr (Or.inr rfl)))
+        simp only [nextField, if_true, this]
+        refine ⟨_, rfl, ?_, ?_, rfl⟩
+        · simp [bodyOf]
+        · intro f hf; simp at hf; subst hf
+          exact ⟨by simp, fun _ => by simp⟩
+    | cons b' t' =>
+      have hb : Clean b := hc b (by simp)
+      obtain ⟨fs, he, hmap, hok, hhead⟩ := ih (by simp) (fun x hx => hc x (by simp [hx]))
+        (by simpa [List.getLast_cons] using hlast)
+      simp only [joinColon, List.append_assoc, List.cons_append]
+      rw [splitEntry_eq, nextField_clean wide b 58 _ hb (Or.inl rfl)]
+      simp only [if_true, he]
+      refine ⟨_, rfl, ?_, ?_, rfl⟩
+      · simp [bodyOf, hmap]
+      · intro f hf
+        rcases List.mem_cons.mp hf with hf | hf
+        · subst hf; exact ⟨by simp, fun _ => by simp⟩
+        · exact hok f hf
+
+
+/-- `fieldsCore` in terms of the field bodies alone. -/
+def bodiesCore (wide : Bool) (bs : List (List Ch)) (first : Ch) (wantType : Nat) : PSpec :=
+  if first = 35 then .comment
+  else if wantType ≠ typeNfs4 then
+    posixCore wide bs.length (fun i => if i < 5 then bs.getD i [] else []) wantType
+  else nfs4Core wide (fun i => if i < 6 then bs.getD i [] else [])
+
+theorem fieldAt_body (fs : List Field) (k i : Nat) :
+    obody (fieldAt fs k i) = if i < k then (fs.map bodyOf).getD i [] else [] := by
+  unfold fieldAt
+  split
+  · simp only [List.getD_eq_getElem?_getD, List.getElem?_map]
+    cases fs[i]? <;> simp [obody]
+  · rfl
+
+theorem fieldsCore_bodies (wide : Bool) (fs : List Field) (wantType : Nat) :
+    fieldsCore wide fs wantType =
+      bodiesCore wide (fs.map bodyOf) (sepAt (fs.headD ⟨[], 0⟩).s) wantType := by
+  unfold fieldsCore bodiesCore
+  simp only [fieldAt_body, List.length_map]
+
+/-- One round of the parser loop over one generated entry. -/
+theorem entry_step (wide : Bool) (wantType : Nat) (bs : List (List Ch)) (tl rest : List Ch)
+    (o : ParseOut) (c0 : Ch) (t0 : List Ch)
+    (hne : bs ≠ []) (hc : ∀ b ∈ bs, Clean b) (hlast : bs.getLast hne ≠ [])
+    (hend : EntryEnd wide tl rest) (hhead : joinColon bs ++ tl = c0 :: t0) (hc0 : c0 ≠ 0)
+    (ty pm tg : Nat) (id : Int) (nm : List Ch)
+    (hcore : bodiesCore wide bs c0 wantType = .entry ty pm tg id nm) :
+    parseLoop wide wantType (joinColon bs ++ tl) o =
+      if (addEntry o.acl ty pm tg id (nm.takeWhile (· ≠ 0))).2 = .failed ∨
+         (addEntry o.acl ty pm tg id (nm.takeWhile (· ≠ 0))).2 = .fatal then
+        .ok { o with acl := (addEntry o.acl ty pm tg id (nm.takeWhile (· ≠ 0))).1,
+                     status := (addEntry o.acl ty pm tg id (nm.takeWhile (· ≠ 0))).2,
+                     added := o.added + 1 }
+      else parseLoop wide wantType rest
+        { o with acl := (addEntry o.acl ty pm tg id (nm.takeWhile (· ≠ 0))).1,
+                 status := if (addEntry o.acl ty pm tg id (nm.takeWhile (· ≠ 0))).2 ≠ .ok then .warn
+                           else o.status,
+                 added := o.added + 1 } := by
+  obtain ⟨fs, he, hmap, hok, hhd⟩ := splitEntry_clean wide bs tl rest hne hc hlast hend
+  have hfs : fs ≠ [] := by intro h; rw [h] at hmap; exact hne hmap.symm
+  obtain ⟨p, hp, hspec, hname⟩ := parseFields_spec wide fs wantType hok hfs
+  rw [fieldsCore_bodies, hmap, hhd, hhead] at hspec
+  simp only [sepAt] at hspec
+  rw [hcore] at hspec
+  conv => lhs; rw [hhead, parseLoop_cons]
+  rw [← hhead, he]
+  simp only [hc0, if_false, loopStep, hp]
+  cases p with
+  | comment => simp [Parsed.toSpec] at hspec
+  | skip => simp [Parsed.toSpec] at hspec
+  | entry ty' pm' tg' id' nmf =>
+    simp only [Parsed.toSpec, PSpec.entry.injEq] at hspec
+    obtain ⟨h1, h2, h3, h4, h5⟩ := hspec
+    subst h1 h2 h3 h4
+    simp only [nameOf_ok (show OFieldOK wide nmf from hname), h5]
+
 end LA.Acl
